@@ -1,17 +1,21 @@
 package dist
 
 import (
+	"bytes"
 	"context"
 	"errors"
 	"fmt"
 	"net/http"
+	"net/http/httptest"
 	"sort"
 	"strings"
 	"sync"
 	"time"
 
 	gqdist "github.com/els0r/goProbe/v4/cmd/global-query/pkg/distributed"
+	gqserver "github.com/els0r/goProbe/v4/pkg/api/globalquery/server"
 	"github.com/els0r/goProbe/v4/pkg/api/goprobe/client"
+	"github.com/els0r/goProbe/v4/pkg/api/server"
 	"github.com/els0r/goProbe/v4/pkg/distributed/hosts"
 	"github.com/els0r/goProbe/v4/pkg/query"
 	"github.com/els0r/goProbe/v4/pkg/results"
@@ -61,6 +65,42 @@ func c31(r *sim.R) *sim.Violation {
 	resolvers.Set("string", stringresolver.NewResolver(true))
 	resolvers.Set("failing", failingResolver{})
 	runner := gqdist.NewQueryRunner(resolvers, q, gqdist.WithMaxConcurrent(sem))
+	exec := runner.Run
+	// server variant (one run in three): the limit is configured on the real global-query API
+	// server (WithQueryRateLimit: a concurrency limit with or without a request rate) and the
+	// queries are POST /_query requests to its router (handler called directly, no socket); the
+	// semaphore is the server's own, so the clauses that look at it are left to the other runs
+	viaServer := t.Draw(3) == 0
+	limiter := ""
+	if viaServer {
+		opts := []server.Option{server.WithNoRecursionDetection()}
+		if t.Draw(2) == 0 {
+			limiter = "limit configured without a request rate"
+			opts = append(opts, server.WithQueryRateLimit(0, 0, K))
+		} else {
+			limiter = "limit configured with a request rate"
+			opts = append(opts, server.WithQueryRateLimit(1e9, 1<<30, K))
+		}
+		handler := gqserver.New("", resolvers, q, opts...).API().Adapter()
+		exec = func(ctx context.Context, a *query.Args) (*results.Result, error) {
+			body, err := jsoniter.Marshal(a)
+			if err != nil {
+				return nil, err
+			}
+			req := httptest.NewRequest(http.MethodPost, "/_query", bytes.NewReader(body)).WithContext(ctx)
+			req.Header.Set("Content-Type", "application/json")
+			rec := httptest.NewRecorder()
+			handler.ServeHTTP(rec, req)
+			if rec.Code != http.StatusOK {
+				return nil, fmt.Errorf("HTTP %d: %.200s", rec.Code, rec.Body.String())
+			}
+			res := new(results.Result)
+			if err := jsoniter.Unmarshal(rec.Body.Bytes(), res); err != nil {
+				return nil, fmt.Errorf("undecodable reply: %w", err)
+			}
+			return res, nil
+		}
+	}
 	keepAlive := []time.Duration{0, 300*time.Millisecond + 7*time.Nanosecond, 3*time.Second + 7*time.Nanosecond}[t.Draw(3)]
 
 	type call struct {
@@ -153,7 +193,7 @@ func c31(r *sim.R) *sim.Violation {
 				pending[c] = true
 				inCall[id] = true
 				mu.Unlock()
-				c.res, c.err = runner.Run(ctx, a)
+				c.res, c.err = exec(ctx, a)
 				cancel()
 				c.end = w.sc.StepCount()
 				mu.Lock()
@@ -188,9 +228,14 @@ func c31(r *sim.R) *sim.Violation {
 	}, 2000000)
 	w.sc.Stop()
 	r.SimTimeNs += int64(idle)*int64(200*time.Millisecond) + int64(w.sc.SimTime)
-	r.Event("distributed: K=%d clients=%d calls=%d strategy=%s clock=1/%d keepalive=%v", K, C, len(calls), w.sc.Strategy(), w.sc.ClockChance, keepAlive)
+	burst := "burst of concurrent distributed queries"
+	if viaServer {
+		burst = "burst of HTTP queries to the global-query server, " + limiter
+		r.Shape = "server, " + limiter
+	}
+	r.Event("distributed: K=%d clients=%d calls=%d strategy=%s clock=1/%d keepalive=%v %s", K, C, len(calls), w.sc.Strategy(), w.sc.ClockChance, keepAlive, burst)
 	if stall != "" {
-		return r.Report(&sim.Violation{Clause: "caller-never-returns", Signature: "burst of concurrent distributed queries", Detail: stall})
+		return r.Report(&sim.Violation{Clause: "caller-never-returns", Signature: burst, Detail: stall})
 	}
 	sort.Slice(calls, func(i, j int) bool {
 		if calls[i].client != calls[j].client {
@@ -208,16 +253,19 @@ func c31(r *sim.R) *sim.Violation {
 			out += c.err.Error()
 		}
 		r.Event("  client %d %s steps [%d,%d] -> %s", c.client, c.kind, c.start, c.end, out)
+		if viaServer && c.kind == "ok" && c.err != nil {
+			return r.Report(&sim.Violation{Clause: "query-fails", Signature: burst, Detail: fmt.Sprintf("client %d: %v", c.client, c.err)})
+		}
 		if c.res != nil && c.res.Status.Code == types.StatusTooManyRequests {
 			r.Probe("too_many_requests_returned")
-			if c.minHeld < K {
+			if c.minHeld < K && !viaServer {
 				return r.Report(&sim.Violation{Clause: "rejected-although-a-slot-was-free", Signature: "burst of concurrent distributed queries",
 					Detail: fmt.Sprintf("client %d was answered 'too many requests' although only %d of %d slots were held at some point of its waiting window", c.client, c.minHeld, K)})
 			}
 		}
 	}
 	if maxExec > K {
-		return r.Report(&sim.Violation{Clause: "limit-exceeded", Signature: "burst of concurrent distributed queries", Detail: fmt.Sprintf("%d distributed queries had requests in flight at once with a limit of %d", maxExec, K)})
+		return r.Report(&sim.Violation{Clause: "limit-exceeded", Signature: burst, Detail: fmt.Sprintf("%d distributed queries had requests in flight at once with a limit of %d", maxExec, K)})
 	}
 	if maxExec == K && C > K {
 		r.Nontriv = true
@@ -231,13 +279,24 @@ func c31(r *sim.R) *sim.Violation {
 	}
 	// K fresh queries succeed (sequentially, no scheduler)
 	w.tr.SetYield(nil)
-	for i := 0; i < K; i++ {
+	nFresh := K
+	if viaServer {
+		nFresh = K + 1 // the semaphore cannot be looked at: a leaked slot shows as a rejected fresh request
+	}
+	for i := 0; i < nFresh; i++ {
 		a := query.NewArgs("sip,dip,dport,proto", "any")
 		a.QueryHosts = "c0a,c0b"
 		a.First, a.Last = "1700000000", "1700100000"
 		a.Format = "json"
-		res, err := runner.Run(context.Background(), a)
+		res, err := exec(context.Background(), a)
 		if err != nil || res == nil || res.Status.Code == types.StatusTooManyRequests {
+			if viaServer && err == nil {
+				what := "after cancelled or successful queries"
+				if kinds["resolver-error"]+kinds["safeguard"] > 0 {
+					what = "after queries that failed once the slot was taken"
+				}
+				return r.Report(&sim.Violation{Clause: "slot-leaked", Signature: what, Detail: fmt.Sprintf("fresh request %d to the server after all %d calls returned (kinds: %v) is answered 'too many requests'", i, len(calls), kinds)})
+			}
 			return r.Report(&sim.Violation{Clause: "fresh-query-rejected", Signature: "after quiescence", Detail: fmt.Sprintf("fresh distributed query %d: res=%v err=%v", i, res != nil, err)})
 		}
 	}
